@@ -497,9 +497,9 @@ def check_cover(ctx, R="C20.cover"):
 
 
 def check(ctx):
-    check_adjacency(ctx)
-    check_lane_adjacency(ctx)
-    check_cover(ctx)
-    check_cache_guard(ctx)
-    check_layout(ctx)
-    check_reconnect(ctx)
+    ctx.run(check_adjacency)
+    ctx.run(check_lane_adjacency)
+    ctx.run(check_cover)
+    ctx.run(check_cache_guard)
+    ctx.run(check_layout)
+    ctx.run(check_reconnect)
